@@ -1,9 +1,9 @@
 (** C06 — bit-string read/write primitives behave like an ideal bit list.
     Statements only; every proof is [exact <lemma>] into Proofs/. *)
 From Coq Require Import List NArith ZArith Arith Lia Bool.
-From Tongo Require Import Lib.Bits Lib.Res Model.BitString Model.BitStringD
+From Tongo Require Import Lib.Bits Lib.Res Model.BitString Model.BitStringD Model.CellRefs
   Proofs.BitStringW Proofs.BitStringR Proofs.BitStringR2 Proofs.BitStringSeq
-  Proofs.MinBits Proofs.Fift Proofs.BitStringD Proofs.C06History.
+  Proofs.MinBits Proofs.Fift Proofs.BitStringD Proofs.C06History Proofs.CellRefsP.
 Import ListNotations.
 
 (** Any sequence of in-domain writes that fits, followed by the matching reads,
@@ -130,17 +130,20 @@ Theorem C06_fift_roundtrip :
 Proof. exact fift_roundtrip. Qed.
 Print Assumptions C06_fift_roundtrip.
 
-(** ** Bit strings derived from other bit strings (stale bits past [len])
+(** ** Bit strings derived from other bit strings (junk bits past [len])
 
     [Inv] constrains lengths only: NOTHING is assumed about the buffer bits at
-    positions >= len.  That matters, because such bits really occur: the
-    byte-aligned fast path of ReadBits(n) copies whole bytes, so for
-    n mod 8 <> 0 its result carries the source's following bits after its
-    length (Model/BitStringD.v is byte-faithful about the returned buffer;
-    [C06_read_bits_result_keeps_stale_bits] is the concrete instance).  All the
-    writer theorems above are therefore already statements "for every garbage
-    past len"; the next one says so explicitly: the state is given as its ideal
-    content [pre] followed by ARBITRARY [junk]. *)
+    positions >= len.  That matters, because such bits really occur: On(n) /
+    Off(n) are exported and write any position below cap without moving len
+    ([C06_on_off]); Copy and Grow keep them.  (Before the repair "fix: ReadBits
+    clears the bits past the requested length when the read cursor is
+    byte-aligned" the fast path of ReadBits(n), n mod 8 <> 0, also left the
+    source's following bits in its result:
+    [C06_read_bits_before_fix_kept_stale_bits]; Model/BitStringD.v is
+    byte-faithful about the returned buffer, [C06_read_bits_result_buffer].)
+    All the writer theorems above are therefore already statements "for every
+    garbage past len"; the next one says so explicitly: the state is given as
+    its ideal content [pre] followed by ARBITRARY [junk]. *)
 Theorem C06_writers_ignore_stale_bits :
   forall (pre junk l : bits) (c r : nat),
   (length (pre ++ junk) mod 8 = 0)%nat ->
@@ -170,11 +173,29 @@ Theorem C06_read_bits_result :
 Proof. exact read_bits_bs_spec. Qed.
 Print Assumptions C06_read_bits_result.
 
-Theorem C06_read_bits_result_keeps_stale_bits :
-  let src := fst (write_bits (bits_of 16 49151) (new_bs 16)) in   (* 0xBFFF *)
-  exists s' r, read_bits_bs 1 src = (s', Ok r) /\
-    abs r = [true] /\ buf r = [true; false; true; true; true; true; true; true].
-Proof. exact read_bits_bs_keeps_stale_bits. Qed.
+(** the buffer of an aligned ReadBits result: the n bits, then zeros *)
+Theorem C06_read_bits_result_buffer :
+  forall n s s' r, (rcur s mod 8 = 0)%nat -> read_bits_bs n s = (s', Ok r) ->
+  buf r = firstn n (skipn (rcur s) (buf s)) ++ zeros (8 * nbytes n - n).
+Proof. exact read_bits_bs_aligned_clean. Qed.
+
+Theorem C06_read_bits_before_fix_kept_stale_bits :
+  exists s' r r', read_bits_bs_before_fix 1 src_BFFF = (s', Ok r) /\
+    abs r = [true] /\ buf r = buf junk_one /\
+    read_bits_bs 1 src_BFFF = (s', Ok r') /\
+    abs r' = [true] /\ buf r' = [true; false; false; false; false; false; false; false].
+Proof. exact read_bits_before_fix_kept_stale_bits. Qed.
+
+(** On(n) / Off(n): Overflow iff n >= cap; below len the ideal bit n changes,
+    at or after len the ideal list is untouched (only junk changes) *)
+Theorem C06_on_off :
+  forall n v s, Inv s ->
+  if (n <? cap s)%nat then
+    exists s', set_bit n v s = (s', Ok tt) /\ Inv s' /\
+      len s' = len s /\ cap s' = cap s /\ rcur s' = rcur s /\
+      abs s' = (if (n <? len s)%nat then set_nth n v (abs s) else abs s)
+  else set_bit n v s = (s, Err EOverflow).
+Proof. exact set_bit_spec. Qed.
 
 Theorem C06_read_remaining_result :
   forall s, Inv s ->
@@ -222,9 +243,10 @@ Proof. exact top_upped_spec. Qed.
 
 (** What makes the above true is that WriteBit(false) CLEARS its bit.  With a
     WriteBit whose false branch only checks the range ([write_bit_noclear],
-    Proofs/C06History.v) the statement is false, with concrete witnesses
-    (source 0xBFFF, aligned ReadBits(1) resp. ReadBits(3)); it stays true only
-    for all-zero junk, which is why fresh buffers do not show the difference. *)
+    Proofs/C06History.v) the statement is false, with concrete witnesses on
+    [junk_one] (the bit 1 followed by junk 0111111, reachable through
+    NewBitString(8); WriteBit(true); On(2..7)); it stays true only for all-zero
+    junk, which is why fresh buffers do not show the difference. *)
 Theorem C06_writers_ignore_stale_bits_noclear_refuted :
   ~ (forall (pre junk l : bits) (c r : nat),
        (length (pre ++ junk) mod 8 = 0)%nat ->
@@ -234,29 +256,29 @@ Theorem C06_writers_ignore_stale_bits_noclear_refuted :
          abs s' = pre ++ l).
 Proof. exact writers_any_junk_noclear_refuted. Qed.
 
-Theorem C06_append_after_aligned_read_bits_noclear_refuted :
-  exists src n zs s' r,
-    Inv src /\ Inv zs /\
-    read_bits_bs_g write_bit_noclear n src = (s', Ok r) /\ Inv r /\
+Theorem C06_junk_reachable_through_on :
+  let s0 := fst (write_bit true (new_bs 8)) in
+  fold_left (fun s n => fst (set_bit n true s)) [2; 3; 4; 5; 6; 7]%nat s0 = junk_one.
+Proof. exact junk_one_reachable. Qed.
+
+Theorem C06_append_noclear_refuted :
+  exists r zs, Inv r /\ Inv zs /\
     exists r', append_g write_bit_noclear zs r = (r', Ok tt) /\
       abs r' <> abs r ++ abs zs /\
       abs r' = [true; false; true; true; true; true].
-Proof. exact append_after_aligned_read_bits_noclear_refuted. Qed.
+Proof. exact append_noclear_refuted. Qed.
 
 Theorem C06_to_fift_noclear_refuted :
-  exists s' r,
-    read_bits_bs_g write_bit_noclear 1 src_BFFF = (s', Ok r) /\ Inv r /\
-    abs r = [true] /\
-    to_fift_bs_g write_bit_noclear r = Ok ([15%N], true) /\
-    to_fift (abs r) = ([12%N], true) /\
-    from_fift [15%N] true = Some [true; true; true].
+  Inv junk_one /\ abs junk_one = [true] /\
+  to_fift_bs_g write_bit_noclear junk_one = Ok ([15%N], true) /\
+  to_fift (abs junk_one) = ([12%N], true) /\
+  to_fift_bs junk_one = Ok ([12%N], true) /\
+  from_fift [15%N] true = Some [true; true; true].
 Proof. exact to_fift_noclear_refuted. Qed.
 
 Theorem C06_top_upped_noclear_refuted :
-  exists s' r,
-    read_bits_bs_g write_bit_noclear 1 src_BFFF = (s', Ok r) /\
-    top_upped_g write_bit_noclear (grow 7 r) = Ok [255%N] /\
-    top_upped (grow 7 r) = Ok [192%N].
+  top_upped_g write_bit_noclear junk_one = Ok [255%N] /\
+  top_upped junk_one = Ok [192%N].
 Proof. exact top_upped_noclear_refuted. Qed.
 
 Theorem C06_noclear_unobservable_on_zero_junk :
@@ -306,6 +328,93 @@ Theorem C06_write_bitstring_from_cursor_consumed_refuted :
     write_bitstring_from_cursor a s = (s, Ok tt) /\
     len (fst (write_bitstring a s)) = (len s + 8)%nat.
 Proof. exact write_bitstring_from_cursor_consumed_refuted. Qed.
+
+(** ** References of a cell: 4 slots and a cursor (Model/CellRefs.v: a heap of
+    cells, a cell is named by its index; [crefs] is the used prefix of the Go
+    array [4]*Cell) *)
+
+(** AddRef fails exactly when the 4 slots are used, and then leaves the cell
+    unchanged; otherwise the reference goes into the first free slot. *)
+Theorem C06_add_ref :
+  forall j c,
+  add_ref j c =
+    if (length (crefs c) <? 4)%nat
+    then (mkcc (cbits c) (crefs c ++ [j]) (crc c), Ok tt)
+    else (c, Err ERefsOverflow).
+Proof. exact add_ref_spec. Qed.
+
+(** NextRef, one call, for EVERY value of the cursor: the reference under the
+    cursor (cursor + 1, the child's counters reset) or ErrNotEnoughRefs with
+    nothing changed — never a panic, in particular not on a full cell after its
+    fourth reference. *)
+Theorem C06_next_ref :
+  forall h i, (length (crefs (hget h i)) <= 4)%nat ->
+  let c := hget h i in
+  next_ref h i =
+    match nth_error (crefs c) (crc c) with
+    | Some r =>
+        let h1 := hset h i (mkcc (cbits c) (crefs c) (S (crc c))) in
+        (hset h1 r (reset_counters (hget h1 r)), Ok r)
+    | None => (h, Err ENotEnoughRefs)
+    end.
+Proof. exact next_ref_spec. Qed.
+Print Assumptions C06_next_ref.
+
+Theorem C06_next_ref_never_panics :
+  forall h i p, (length (crefs (hget h i)) <= 4)%nat -> snd (next_ref h i) <> Panic p.
+Proof. exact next_ref_never_panics. Qed.
+
+Theorem C06_next_ref_past_end :
+  forall h i, (length (crefs (hget h i)) <= 4)%nat ->
+  (length (crefs (hget h i)) <= crc (hget h i))%nat ->
+  next_ref h i = (h, Err ENotEnoughRefs).
+Proof. exact next_ref_past_end. Qed.
+
+(** Reading from the start yields the references in insertion order, then the
+    error for ever. *)
+Theorem C06_next_refs_in_insertion_order :
+  forall h i, wf h i -> crc (hget h i) = 0%nat ->
+  exists h', next_refs_g next_ref (length (crefs (hget h i))) h i [] = (h', Ok (crefs (hget h i))) /\
+    next_ref h' i = (h', Err ENotEnoughRefs) /\
+    refs_avail (hget h' i) = 0%nat.
+Proof. exact next_refs_all_in_order. Qed.
+Print Assumptions C06_next_refs_in_insertion_order.
+
+(** CopyRemaining: a new cell with exactly the unread bits and the unread
+    references; the source keeps both cursors; cells that are neither the
+    source nor among the unread references are untouched. *)
+Theorem C06_copy_remaining :
+  forall h i, wf h i -> Inv (cbits (hget h i)) ->
+  (crc (hget h i) <= length (crefs (hget h i)))%nat ->
+  let c := hget h i in
+  exists h2 rem,
+    copy_remaining h i = (h2 ++ [mkcc rem (skipn (crc c) (crefs c)) 0], Ok (length h)) /\
+    length h2 = length h /\
+    hget h2 i = c /\
+    (forall j, j <> i -> ~ In j (skipn (crc c) (crefs c)) -> hget h2 j = hget h j) /\
+    abs rem = skipn (rcur (cbits c)) (abs (cbits c)) /\ Inv rem /\ rcur rem = 0%nat.
+Proof. exact copy_remaining_spec. Qed.
+Print Assumptions C06_copy_remaining.
+
+(** a NextRef whose guard is [refCursor > 4] instead of [> 3]: the fifth call
+    on a full cell indexes refs[4] and panics; with fewer than 4 references it
+    cannot be told apart *)
+Theorem C06_next_ref_guard4_refuted :
+  exists h', next_refs_g next_ref_guard4 4 full_heap 0 [] = (h', Ok [1; 2; 3; 4]%nat) /\
+    next_ref_guard4 h' 0 = (h', Panic PIndex) /\
+    next_ref h' 0 = (h', Err ENotEnoughRefs).
+Proof. exact next_ref_guard4_refuted. Qed.
+
+Theorem C06_next_ref_guard4_same_below_4 :
+  forall h i, (crc (hget h i) <= length (crefs (hget h i)))%nat ->
+  (length (crefs (hget h i)) < 4)%nat ->
+  next_ref_guard4 h i = next_ref h i.
+Proof. exact next_ref_guard4_same_below_4. Qed.
+
+Example C06_full_cell_premises :
+  let h := [mkcc (new_bs 1023) [1; 2; 3; 4]%nat 0; new_cell; new_cell; new_cell; new_cell] in
+  wf h 0 /\ Inv (cbits (hget h 0)) /\ length (crefs (hget h 0)) = 4%nat.
+Proof. exact full_cell_premises. Qed.
 
 (** Non-vacuity: a concrete non-trivial state and item list meet the premises. *)
 Example C06_premises_satisfiable :
